@@ -7,7 +7,7 @@ from . import build
 
 def main():
     t = time.time()
-    cfgs = ["fast", "asan", "tsan", "noinl", "allinl"]
+    cfgs = ["fast", "asan", "tsan", "noinl", "allinl", "alloc"]
     with ThreadPoolExecutor(max_workers=3) as ex:
         for c, d in zip(cfgs, ex.map(build.build_lib, cfgs)):
             print("built %-7s %s" % (c, d))
